@@ -143,7 +143,9 @@ func c08Matrix(r *R, prop string) {
 			all = append(all, cp+"/g")
 		}
 		if i == 0 && (cell.tree == 3 || cell.tree == 4) {
-			m1 := w.NewMaker("c0", func(n int, ctx vivid.SupervisionContext) vivid.SupervisionDecision { return vivid.SupervisionDecisionEscalate })
+			m1 := w.NewMaker("c0", func(n int, ctx vivid.SupervisionContext) vivid.SupervisionDecision {
+				return vivid.SupervisionDecisionEscalate
+			})
 			escalators["/sup/c0"] = m1
 			// the escalating supervisor uses the cell's strategy too and has a healthy second child: under one-for-all
 			// it suspends that sibling before escalating, and whoever decides above must resume it
@@ -153,7 +155,9 @@ func c08Matrix(r *R, prop string) {
 			d1 := mk("d")
 			all = append(all, cp+"/d")
 			if cell.tree == 4 {
-				m2 := w.NewMaker("d", func(n int, ctx vivid.SupervisionContext) vivid.SupervisionDecision { return vivid.SupervisionDecisionEscalate })
+				m2 := w.NewMaker("d", func(n int, ctx vivid.SupervisionContext) vivid.SupervisionDecision {
+					return vivid.SupervisionDecisionEscalate
+				})
 				escalators["/sup/c0/d"] = m2
 				d1.Strategy = mkStrategy(m2)
 				e1 := mk("e")
@@ -624,7 +628,9 @@ func c08WhileStopping(r *R, prop string) {
 	if r.Failed() {
 		return
 	}
-	m := w.NewMaker("sup", func(n int, ctx vivid.SupervisionContext) vivid.SupervisionDecision { return vivid.SupervisionDecisionRestart })
+	m := w.NewMaker("sup", func(n int, ctx vivid.SupervisionContext) vivid.SupervisionDecision {
+		return vivid.SupervisionDecisionRestart
+	})
 	site := r.Choose(3) // 0 OnKill, 1 own OnKilled, 2 child's OnKilled while stopping
 	poison := r.Chance(50)
 	victim := &Spec{Name: "v", Children: []*Spec{{Name: "k"}}}
